@@ -79,7 +79,7 @@ def rich_models(draw, max_bodies=4, assets=True, defaults=True, frames=True, rep
       comp['boundmass'] = fmt(draw(num(0.01, 0.5)))
     if draw(st.integers(0, 4)) == 0:
       comp['boundinertia'] = fmt(draw(num(0.001, 0.05, 3)))
-    if draw(st.integers(0, 5)) == 0:
+    if draw(st.integers(0, 11)) == 0:      # rare: the writer drops it (C32 finding), which masks everything else
       comp['settotalmass'] = fmt(draw(num(1, 30, 1)))
     if draw(st.integers(0, 4)) == 0:
       comp['balanceinertia'] = 'true'
@@ -89,7 +89,7 @@ def rich_models(draw, max_bodies=4, assets=True, defaults=True, frames=True, rep
       comp['alignfree'] = 'true'
     if draw(st.integers(0, 5)) == 0:
       comp['saveinertial'] = 'true'
-    if draw(st.integers(0, 5)) == 0:
+    if draw(st.integers(0, 11)) == 0:      # rare: the writer drops it (C32 finding)
       comp['inertiagrouprange'] = '0 %d' % draw(st.integers(2, 5))
     if draw(st.integers(0, 6)) == 0:
       comp['fusestatic'] = 'true'
